@@ -74,6 +74,7 @@ SpecX == InitX /\ [][NextX]_varsX
 FairSpecX == /\ SpecX
              /\ WF_varsX(XReceive) /\ WF_varsX(XInsert) /\ WF_varsX(XBroker) /\ WF_varsX(XRelease)
              /\ WF_varsX(XPreload) /\ WF_varsX(XVerify) /\ WF_varsX(XVerifyDone)
+             /\ WF_varsX(CleanExpired)                                  \* the tick keeps coming
 
 -----------------------------------------------------------------------------
 \* blocks the node has and has not dropped
@@ -94,4 +95,6 @@ NeverLeaveTipForNotHeavierX == [][tip' # tip => TD(tip') > TD(tip)]_varsX
 DroppedAbove(b) == \E a \in ChainOf(b) \ {0} : a \in gone
 EventuallyJudgedX == \A b \in Blocks : Ready(b) ~> (Judged(b) \/ WaitsForNextBlock(b) \/ DroppedAbove(b))
 EventuallyQuiescentX == <>[]Quiescent
+\* the tick does its work: in the end nothing beyond the horizon is left in the pool
+EventuallyCleaned == <>[](ExpiredLeaders = {})
 =============================================================================
